@@ -290,7 +290,7 @@ func runConstIndex(c *core.Ctx) []core.Obligation {
 		}
 		// the scanners are also handed empty text (the unquoted text of an empty key, the rest of a
 		// truncated document): there the parameter itself is held to the same standard
-		scanner := strings.HasPrefix(name, "json.(decoder).parse")
+		scanner := strings.HasPrefix(name, "json.(decoder).parse") || strings.HasPrefix(name, "json.constructIntegerKeyDecodeFunc$")
 		bp := bufParam(fn)
 		isResliced := func(v ssa.Value) bool {
 			for _, o := range origins(v) {
